@@ -24,21 +24,22 @@ def C05_produce_v2_roundtrip_stmt : Prop :=
 
 /-- message sets of plain (uncompressed) messages, both formats, null / empty keys and values,
     any offsets and timestamps: decoding yields exactly the entries, then ends normally -/
-def C05_msgset_roundtrip : Prop :=
+def C05_msgset_roundtrip_stmt : Prop :=
   ∀ (ext : Ext) (depth : Nat) (entries : List (Int × Spec.Msg)),
     (Spec.messageSet ext.crc).valid entries = true → entries.all (fun e => e.2.attributes % 4 = 0) = true →
     decodeMessageSet ext (depth + 1) ((Spec.messageSet ext.crc).enc entries) =
       (entries.map (fun e => ⟨e.1, toMessage e.2⟩), none)
 
-/-- a gzip wrapper around a set of plain messages, under `gunzip (gzip x) = x` -/
+/-- **Nested sets, any depth, any decompressor output**: whenever the protocol says what a message set
+    contains (`expectedSet … = some g`: every wrapper's payload decompresses to bytes that parse as a
+    message set, to the nesting depth given), the decoder yields exactly that.
+    PROVED for sets whose wrappers are one level deep and hold what the grammar itself encodes
+    (`C05_gzip_roundtrip_partial`); open for depth ≥ 2 and for payloads only known to PARSE under the
+    grammar (that needs the converse law `enc (dec b) = b` of the grammar, which is not proved). -/
 def C05_gzip_roundtrip : Prop :=
-  ∀ (ext : Ext) (gzip : Bytes → Bytes) (depth : Nat) (woff : Int) (w : Spec.Msg) (inner : List (Int × Spec.Msg)),
-    (∀ x, ext.gunzip (some (gzip x)) = .ok x) →
-    (Spec.messageSet ext.crc).valid inner = true → inner.all (fun e => e.2.attributes % 4 = 0) = true →
-    w.attributes % 4 = 1 → w.value = some (gzip ((Spec.messageSet ext.crc).enc inner)) →
-    (Spec.messageSet ext.crc).valid [(woff, w)] = true →
-    expectedSet ext.crc (fun b => (ext.gunzip (some b)).toOption) (depth + 2) [(woff, w)] =
-      some (decodeMessageSet ext (depth + 2) ((Spec.messageSet ext.crc).enc [(woff, w)]))
+  ∀ (ext : Ext) (depth : Nat) (entries : List (Int × Spec.Msg)) (g : Gen),
+    expectedSet ext.crc (fun b => (ext.gunzip (some b)).toOption) depth entries = some g →
+    decodeMessageSet ext (depth + 1) ((Spec.messageSet ext.crc).enc entries) = g
 
 def C05_fetch_v0_roundtrip : Prop :=
   ∀ (ext : Ext) (depth : Nat) v e,
@@ -53,7 +54,7 @@ def C05_fetch_v2_roundtrip : Prop :=
 def C05_list_offsets_roundtrip_stmt : Prop :=
   ∀ v e, expectedListOffsets v = some (e, true) → finished (decodeOffsetResponse (Spec.listOffsetsResponse.enc v)) e
 
-def C05_metadata_roundtrip : Prop :=
+def C05_metadata_roundtrip_stmt : Prop :=
   ∀ v e, expectedMetadata v = some e → decodeMetadataResponse (Spec.metadataResponse.enc v) = .ok e
 
 def C05_offset_commit_roundtrip_stmt : Prop :=
@@ -68,7 +69,7 @@ def C05_join_group_roundtrip_stmt : Prop :=
 def C05_subscription_roundtrip_stmt : Prop :=
   ∀ v e, expectedSubscription v = some e → decodeJoinGroupProtocolMetadata (Spec.subscription.enc v) = .ok e
 
-def C05_assignment_roundtrip : Prop :=
+def C05_assignment_roundtrip_stmt : Prop :=
   ∀ v e, expectedAssignment v = some e → decodeSyncGroupMemberAssignment (Spec.assignment.enc v) = .ok e
 
 def C05_api_versions_roundtrip_stmt : Prop :=
